@@ -533,3 +533,28 @@ def default_constructed_cases(ctx):
                     except Exception:
                         ctx.stats['default-constructed-unbuildable'] += 1
     return out
+
+
+def tagged_choice_in_choice_cases(ctx):
+    """An untagged CHOICE whose alternative is a TAGGED CHOICE, held by something that places members by tag (a SET, a run
+    of OPTIONAL members of a SEQUENCE, an outer CHOICE), next to a sibling whose own tag equals the tag of the INNER
+    CHOICE's leaf: the tag on the wire is the inner CHOICE's [n], never the leaf's, so the value belongs to the CHOICE
+    member and the sibling is a different member (the effective tag of a CHOICE stops at a tagged CHOICE)."""
+    out = []
+    for tg in (lambda t: ('exp', (128, 0, 0), t), lambda t: ('exp', (64, 0, 33), t)):
+        inner = tg(('choice', [('int',), ('octs',)]))
+        outer = ('choice', [inner, ('bool',)])
+        for alt, leaf in ((0, ('i', 5)), (1, ('o', b'xy'))):
+            cv = ('ch', 0, ('ch', alt, leaf))
+            sib_t, sib_v = (('int',), ('i', 7)) if alt == 0 else (('octs',), ('o', b'k'))
+            shapes = [(('set', [('opt', outer), ('req', sib_t)]), [('rec', [cv, sib_v]), ('rec', [None, sib_v])]),
+                      (('set', [('req', sib_t), ('req', outer)]), [('rec', [sib_v, cv]), ('rec', [sib_v, ('ch', 1, ('b', True))])]),
+                      (('seq', [('opt', outer), ('opt', sib_t), ('req', ('null',))]), [('rec', [cv, sib_v, ('null',)]), ('rec', [cv, None, ('null',)]), ('rec', [None, sib_v, ('null',)])]),
+                      (('choice', [outer, sib_t]), [('ch', 0, cv), ('ch', 1, sib_v)])]
+            for T, vs in shapes:
+                for v in vs:
+                    try:
+                        out.append(Case(T, v)); ctx.stats['tagged-choice-in-choice'] += 1
+                    except Exception:
+                        ctx.stats['tagged-choice-in-choice-unbuildable'] += 1
+    return out
